@@ -145,6 +145,31 @@ func (ft *FT) translate() {
 			}
 		}
 	}
+	// `fresh` on a function with a body: every reference it returns must be newly allocated
+	// (allocation, make, append, result of a fresh callee) or nil
+	if ft.con != nil && ft.con.Fresh && !ft.con.Trusted && !ft.con.NoBody && !ft.collect {
+		for _, blk := range fn.Blocks {
+			if len(blk.Instrs) == 0 {
+				continue
+			}
+			ret, ok := blk.Instrs[len(blk.Instrs)-1].(*ssa.Return)
+			if !ok {
+				continue
+			}
+			for i, r := range ret.Results {
+				if ft.sortOf(r.Type()) != "Ref" {
+					continue
+				}
+				if c, isC := r.(*ssa.Const); isC && c.IsNil() {
+					continue
+				}
+				if !freshBase(r) {
+					ft.obls = append(ft.obls, &Obligation{Name: fmt.Sprintf("fresh:result%d", i), Kind: "shape", Tags: ft.allTags(), Guard: tTrue, Goal: tFalse,
+						Src: "the contract says `fresh` but result " + fmt.Sprint(i) + " at " + ft.pos(ret.Pos()) + " is not a new allocation", Fn: fn.String()})
+				}
+			}
+		}
+	}
 	nilTested := nilComparedParams(fn)
 	for _, p := range fn.Params {
 		v := b.declVal(p)
